@@ -291,6 +291,25 @@ def check(ctx):
               f"the arguments are zipped with `{norm(defs[0]) if defs else norm(pv)}` only: for `class E(A[U, T], Generic[T, U])`, E[int, str] binds U=int, T=str (order of appearance in the bases) instead of T=int, U=str - the fields inherited from A get each other's types, valid data is rejected and swapped data accepted",
               gm, zips[0], detail="origin.__parameters__")
 
+    generic_substitution_rule(ctx, "C01.R12")
+
+    # ---------------- R13: literal_values is position-preserving
+    ctx.rule("C01.R13", "literal_values returns one primitive per argument of the Literal / member of the Enum, in order: its caller zips the result with the arguments to build the value table (deduplicating with Python equality, where False == 0 and 1 == 1.0, shifts the pairs)", floor=2)
+    lv = model.func("apischema.utils.literal_values")
+    rets13 = [r for r in walk_no_nested(lv.node) if isinstance(r, ast.Return) and r.value is not None]
+    ctx.require(len(rets13) == 1, "literal_values: single return not found")
+    rv = rets13[0].value
+    src13 = rv
+    if isinstance(rv, ast.Name):
+        d13 = [a.value for a in walk_no_nested(lv.node) if isinstance(a, ast.Assign) and norm(a.targets[0]) == rv.id]
+        src13 = d13[-1] if len(d13) == 1 else None
+    elementwise = isinstance(src13, ast.ListComp) and len(src13.generators) == 1 and norm(src13.generators[0].iter) == lv.params[0] and not src13.generators[0].ifs
+    ctx.check(elementwise, "C01.R13", f"{lv.qualname}:one-per-argument", None,
+              f"`return {short(rv, 50)}` is not the element-wise image of `{lv.params[0]}`: with a deduplicated / filtered result, `zip(literal_values(values), values)` in the deserialization visitor pairs keys with the wrong values - Literal[False, 0] rejects 0, Literal[1, True, 'high', 2] maps 'high' to True",
+              lv, rets13[0], detail=f"[... for v in {lv.params[0]}]")
+    lit13 = model.func("apischema.deserialization.DeserializationMethodVisitor.literal.<locals>.factory")
+    ctx.check("zip(keys, values)" in norm(lit13.node) and "keys = literal_values(values)" in norm(lit13.node), "C01.R13", f"{lit13.qualname}:zip", None, "the literal value table is no longer built by zipping literal_values(values) with values (rule to be re-derived)", lit13, lit13.node, detail="zip(literal_values(values), values)", nontrivial=False)
+
     # ---------------- R11: merged multipleOf
     ctx.rule("C01.R11", "multipleOf constraints of two levels merge into their least common multiple computed on integers (floor division): a float result loses precision on large integers, which are then rejected although they are multiples", floor=2)
     mm = model.func("apischema.constraints.merge_mult_of")
@@ -306,7 +325,31 @@ def check(ctx):
     ok = len(guards) == 1 and isinstance(guards[0].test, ast.BoolOp) and isinstance(guards[0].test.op, ast.Or) and all("isinstance" in norm(x) and "int" in norm(x) for x in guards[0].test.values)
     ctx.check(ok, "C01.R11", f"{mm.qualname}:integers-only", None, "merge_mult_of does not refuse the merge as soon as one of the two values is not an integer (gcd is only defined on integers)", mm, guards[0] if guards else mm.node, detail="not int(m1) or not int(m2) -> TypeError")
 
+def generic_substitution_rule(ctx, rule):
+    model = ctx.model
+    # ---------------- R12: substitution into generic bases and inherited hints reaches nested variables
+    ctx.rule(rule, "generic inheritance: the arguments of the subclass are substituted into a base (and into an inherited hint) through its `__parameters__`, i.e. wherever the variables occur - Box[List[T]] as well as Box[T]; substituting the top-level arguments only leaves nested variables unbound (the field is then handled as Any: anything is accepted and returned raw)", floor=2)
+    gm12 = model.func("apischema.typing._generic_mro")
+    rth = model.func("apischema.typing.resolve_type_hints")
+    for fi12, what in ((gm12, "base"), (rth, "hint")):
+        subs = [n for n in ast.walk(fi12.node) if isinstance(n, ast.Subscript) and isinstance(n.slice, ast.Call) and dotted(n.slice.func) == "tuple" and n.slice.args and isinstance(n.slice.args[0], ast.GeneratorExp)
+                and "substitution.get(" in norm(n.slice.args[0].elt)]
+        ctx.require(len(subs) >= 1, f"{fi12.qualname}: re-subscription with the substitution not found")
+        for sub_ in subs:
+            it = sub_.slice.args[0].generators[0].iter
+            it_text = norm(it)
+            if isinstance(it, ast.Name):
+                defs12 = [norm(a.value) for a in walk_no_nested(fi12.node) if isinstance(a, ast.Assign) and norm(a.targets[0]) == it.id]
+                it_text = " ".join(defs12) or it_text
+            deep = "__parameters__" in it_text
+            ctx.check(deep, rule, f"{fi12.qualname}:{what}-substitution", None,
+                      f"`{short(sub_, 70)}` substitutes over `{short(it, 30)}`, the top-level arguments: for `class Batch(Box[List[T]])`, Batch[UUID] keeps `content: List[T]` with T unbound - deserialize returns the raw strings where UUIDs are expected (and accepts anything)",
+                      fi12, sub_, detail="tuple(substitution.get(p, p) for p in <alias>.__parameters__)")
+
+
 def mutants(mb):
+    mb.add_text("literal-values-deduplicated", "apischema/utils.py", "    return primitive_values\n", "    return list(dict.fromkeys(primitive_values))\n", "C01.R13", "one-per-argument")
+    mb.add_text("generic-base-top-level-substitution", "apischema/typing.py", "            base_parameters = getattr(base, \"__parameters__\", ())\n            if base_parameters:\n                base = base[tuple(substitution.get(p, p) for p in base_parameters)]\n", "            if getattr(base, \"__parameters__\", ()):\n                base = get_origin(base)[tuple(substitution.get(a, a) for a in get_args(base))]\n", "C01.R12", "base-substitution")
     mb.add_text("mult-of-true-division", "apischema/constraints.py", "    return m1 * m2 // gcd(m1, m2)", "    return m1 * m2 / gcd(m1, m2)", "C01.R11", "lcm")
     mb.add_text("generic-params-by-appearance", "apischema/typing.py", "        parameters = getattr(origin, \"__parameters__\", None)\n        if parameters is None:\n            parameters = _collect_type_parameters(origin.__orig_bases__)\n", "        parameters = _collect_type_parameters(origin.__orig_bases__)\n", "C01.R10", "parameters")
     M = "apischema/deserialization/methods.py"
